@@ -16,7 +16,7 @@ RULE = (
     "crossed with call in {left,right,none} x stop in {yes,no} per contest, alphas {0.7,0.9}; every (pattern,status) on the first contest x every (pattern,status) on the second (quick: every 4th pattern there), third "
     "contest cycling (thorough: all triples over a reduced pattern set). Oracle = the statement row by row; uncalled, unstopped rows bit-identical to the "
     "run with empty lists. (b) every way of naming a contest for both parties or naming an unknown contest in each of the three lists, state and district "
-    "contests => BootstrapElectionModelException. (c) real client, every (call, stop) assignment of two states (36) with and without finer aggregates, and of a third contest that exists only through an unexpected unit without votes (0/0 margin). "
+    "contests => BootstrapElectionModelException. (c) real client, every (call, stop) assignment of two states (36) with and without finer aggregates, and of a third contest that exists only through an unexpected unit without votes (0/0 margin); a district office with every (call, stop) assignment of two of its six contests, judged on both tables that list contests; every two-run history of a driver that keeps its three list objects and edits them between runs (36 x 2 stop lists), judged against the caller's own copy of its lists. "
     "non-trivial = at least one contest is called or stopped"
 )
 ASSUMPTIONS = ["B = 2 draws are enough to realise any (lower, pred, upper) target because the interval is pred minus two order statistics of the draws"]
@@ -63,6 +63,17 @@ def cases(tier, seed):
     # a contest that exists only through an unexpected unit without any votes yet (0/0 margin), called or stopped
     for sc in range(len(STATUS)):
         out.append({"kind": "client", "finer": False, "status": [0, 0], "empty_contest": sc, "seed": seed})
+    # district office: the contests are (state, district) pairs and both the 'postal_code' and the 'district' table list them
+    for sa in range(len(STATUS)):
+        for sb in range(len(STATUS)):
+            out.append({"kind": "client_h", "status": [sa, sb], "seed": seed})
+    # an election-night driver: the caller keeps its three list objects for the whole night and edits them between runs;
+    # every two-run history over (AA: none/left/right) x (BB: none/left) with a fixed stop list
+    hstates = [(a, b) for a in ("none", "left", "right") for b in ("none", "left")]
+    for stop in (["AA"], ["AA", "BB"]):
+        for first in hstates:
+            for second in hstates:
+                out.append({"kind": "client_history", "stop": stop, "steps": [list(first), list(second)], "seed": seed})
     for bad in ("both", "unknown_lhs", "unknown_rhs", "unknown_stop"):
         for office in ("G", "H"):
             out.append({"kind": "client_invalid", "bad": bad, "office": office, "seed": seed})
@@ -233,6 +244,78 @@ def _client(case, cov, viol):
     return 2, bool(lhs or rhs or stp)
 
 
+def _client_h(case, cov, viol):
+    units = E.background(case["seed"], "H", 30, "AABB", partial=6)
+    units.append(E.make_probe(case["seed"], 0, "nonrep_partial", "pop0", "H", "10", weights="twoparty"))
+    sa, sb = STATUS[case["status"][0]], STATUS[case["status"][1]]
+    contests = [("AA_1", sa), ("BB_10", sb)]
+    lhs = [n for n, s in contests if s[0] == "left"]
+    rhs = [n for n, s in contests if s[0] == "right"]
+    stp = [n for n, s in contests if s[1]]
+    base_cfg = E.make_cfg(office="H", pi_method="bootstrap", estimands=["margin"], features=["baseline_normalized_margin"], alphas=[0.7, 0.9], aggregates=["postal_code", "district", "unit"], model_parameters={"B": 10, "lambda_": 1.0})
+    cfg = dict(base_cfg, lhs=lhs, rhs=rhs, stop=stp)
+    a = E.run_estimates(units, base_cfg)
+    b = E.run_estimates(units, cfg)
+    ctx = "client district office " + " ".join(f"{n}={st}" for n, st in contests)
+    if "error" in a:
+        raise RuntimeError(a)
+    if "error" in b:
+        viol("valid-lists-raised", f"{ctx}: {b['error']}")
+        return 2, True
+    status = dict(contests)
+    for tname in ("state_data", "district_data"):
+        ra = {f"{r['postal_code']}_{r['district']}": r for r in E.tab_rows(a["ok"][tname])}
+        rb = {f"{r['postal_code']}_{r['district']}": r for r in E.tab_rows(b["ok"][tname])}
+        if set(ra) != set(rb):
+            viol("contest-rows-changed", f"{ctx}: {tname} lists {sorted(rb)} with the lists, {sorted(ra)} without")
+            continue
+        for name in ra:
+            call, stop = status.get(name, ("none", False))
+            for al in (0.7, 0.9):
+                ref = (ra[name]["pred_margin"], ra[name][f"lower_{al}_margin"], ra[name][f"upper_{al}_margin"])
+                _check_row(name, call, stop, rb[name]["pred_margin"], rb[name][f"lower_{al}_margin"], rb[name][f"upper_{al}_margin"], ref, viol, ctx + f" {tname} alpha={al}", cov)
+            cov["district_office_contest_rows"] += 1
+    cov["client_runs"] += 1
+    return 2, bool(lhs or rhs or stp)
+
+
+def _client_history(case, cov, viol):
+    """The caller's own picture of its lists (plain copies never handed to the library) is the reference: run k must treat
+    every contest as the caller listed it for run k."""
+    units = E.background(case["seed"], "G", 20, "AABB", partial=4)
+    units.append(E.make_probe(case["seed"], 0, "nonrep_partial", "pop0", weights="twoparty"))
+    base_cfg = E.make_cfg(pi_method="bootstrap", estimands=["margin"], features=["baseline_normalized_margin"], alphas=[0.7, 0.9], aggregates=["postal_code", "unit"], model_parameters={"B": 10, "lambda_": 1.0})
+    a = E.run_estimates(units, base_cfg)
+    if "error" in a:
+        raise RuntimeError(a)
+    ra = {r["postal_code"]: r for r in E.tab_rows(a["ok"]["state_data"])}
+    lhs, rhs, stp = [], [], list(case["stop"])  # the objects handed to every run
+    runs = 1
+    for k, (sa, sb) in enumerate(case["steps"]):
+        want = {"AA": sa, "BB": sb}
+        # the caller edits its long-lived lists in place
+        for lst, side in ((lhs, "left"), (rhs, "right")):
+            for name in ("AA", "BB"):
+                if want[name] == side and name not in lst:
+                    lst.append(name)
+                elif want[name] != side and name in lst:
+                    lst.remove(name)
+        ref_stop = list(case["stop"])
+        b = E.run_estimates(units, base_cfg, kwargs_override={"lhs_called_contests": lhs, "rhs_called_contests": rhs, "stop_model_call": stp})
+        runs += 1
+        ctx = f"driver history stop={case['stop']} steps={case['steps']} run {k + 1}"
+        if "error" in b:
+            viol("valid-lists-raised", f"{ctx}: {b['error']}")
+            return runs, True
+        rb = {r["postal_code"]: r for r in E.tab_rows(b["ok"]["state_data"])}
+        for name in ("AA", "BB"):
+            for al in (0.7, 0.9):
+                ref = (ra[name]["pred_margin"], ra[name][f"lower_{al}_margin"], ra[name][f"upper_{al}_margin"])
+                _check_row(name, want[name], name in ref_stop, rb[name]["pred_margin"], rb[name][f"lower_{al}_margin"], rb[name][f"upper_{al}_margin"], ref, viol, ctx + f" alpha={al}", cov)
+        cov["history_runs"] += 1
+    return runs, True
+
+
 def _client_invalid(case, cov, viol):
     office = case["office"]
     units = E.background(case["seed"], office, 24, "AABB", partial=4)
@@ -260,9 +343,9 @@ def evaluate(case):
         if not any(v["sig"] == f"C07:{kind}" for v in V):
             V.append({"sig": f"C07:{kind}", "msg": str(msg)[:900]})
 
-    fn = {"table": _table, "validation": _validation, "client": _client, "client_invalid": _client_invalid}[case["kind"]]
+    fn = {"table": _table, "validation": _validation, "client": _client, "client_h": _client_h, "client_history": _client_history, "client_invalid": _client_invalid}[case["kind"]]
     runs, nontrivial = fn(case, cov, viol)
     return {"violations": V, "cov": dict(cov), "outcome": sha([v["sig"] for v in V] + [case["kind"]]), "nontrivial": nontrivial, "transitions": max(1, runs)}
 
 
-REQUIRED_COUNTERS = {"decision_rows": 10000, "rows_called_left": 1000, "rows_called_right": 1000, "rows_stopped": 1000, "rows_untouched": 1000, "rows_called_and_stopped": 500, "invalid_lists_rejected": 8, "client_runs": 50, "client_invalid_rejected": 6, "empty_contest_runs": 6}
+REQUIRED_COUNTERS = {"decision_rows": 10000, "rows_called_left": 1000, "rows_called_right": 1000, "rows_stopped": 1000, "rows_untouched": 1000, "rows_called_and_stopped": 500, "invalid_lists_rejected": 8, "client_runs": 50, "client_invalid_rejected": 6, "empty_contest_runs": 6, "history_runs": 100, "district_office_contest_rows": 200}
